@@ -17,6 +17,7 @@ MAX = opt('--max', 300)
 JOBS = opt('--jobs', 14)
 OUT = opt('--out', '/tmp/mutation_survey.json')
 ONLY = [a for i, a in enumerate(args) if i > 0 and args[i - 1] == '--only']
+OPS = opt('--ops', '')                  # only mutations whose description starts with one of these comma-separated words
 EXCLUDE = opt('--exclude', '')          # report of an earlier run: its mutants are not drawn again
 
 anchors = collections.defaultdict(set)
@@ -105,6 +106,23 @@ def mutants_of(src, fn):
             yield ('if condition -> True', ta, tb, "True")
         elif isinstance(n, ast.Expr) and isinstance(n.value, ast.Call) and n.lineno == n.end_lineno:
             yield ('statement removed: %s' % seg[:40], a, b, "pass")
+        elif isinstance(n, ast.AugAssign) and type(n.op) in BIN:
+            t, v = n.target, n.value
+            yield ('augassign %s -> %s=' % (type(n.op).__name__, BIN[type(n.op)]), a, b, "%s %s= %s" % (
+                src[off(t.lineno, t.col_offset):off(t.end_lineno, t.end_col_offset)], BIN[type(n.op)], src[off(v.lineno, v.col_offset):off(v.end_lineno, v.end_col_offset)]))
+        elif isinstance(n, (ast.Attribute, ast.Name)) and isinstance(getattr(n, 'ctx', None), ast.Load):
+            # copy-and-paste slips between the four kinds of term (and between the x / y / z or 1 / 2 variants of a name)
+            name = n.attr if isinstance(n, ast.Attribute) else n.id
+            for x, y in (('bond', 'angle'), ('angle', 'dihedral'), ('dihedral', 'improper'), ('improper', 'bond'), ('cellx', 'celly'), ('celly', 'cellz'),
+                         ('axisp1', 'axisp2'), ('axisp2', 'axisp1'), ('search_pattern', 'replace_pattern'), ('replace_pattern', 'search_pattern')):
+                if x in name and y not in name:
+                    new = name.replace(x, y)
+                    if isinstance(n, ast.Attribute):
+                        v = n.value
+                        yield ('name %s -> %s' % (name, new), a, b, "%s.%s" % (src[off(v.lineno, v.col_offset):off(v.end_lineno, v.end_col_offset)], new))
+                    else:
+                        yield ('name %s -> %s' % (name, new), a, b, new)
+                    break
 
 
 def run_tests(scr):
@@ -166,6 +184,8 @@ def main():
         if q not in fns:
             continue
         ms = list(mutants_of(src, fns[q]))
+        if OPS:
+            ms = [m_ for m_ in ms if any(m_[0].startswith(o) for o in OPS.split(','))]
         # nested functions are walked with their parents: attribute each mutant once (to the innermost anchored function is not needed here)
         rnd.shuffle(ms)
         for desc, a, b, rep in ms:
